@@ -49,9 +49,12 @@ def rule_quant(E, R):
         return R.cannot(rule, LOGIC, "anchor not found")
     # Quantifier over a direct IndexExpr: Ok(Array) -> reduce, Err -> false
     found = False
-    for n, st in sem.sem_walk(E, h):
-        if n.get("k") == "Match" and arm_variants(st, "QuantifierArgExpr") == ["IndexExpr"]:
-            sc = strip(n["scrut"])
+    Sq = sem.Sem(E, h)
+    for st in Sq.sites():
+        n = st.node
+        if n.get("k") == "Match" and not sem.is_try(n) and arm_variants(st, "QuantifierArgExpr") == ["IndexExpr"]:
+            # the scrutinee is the result of executing the compiled argument (possibly handed to a private helper)
+            sc = Sq.resolve(n["scrut"], st.frame).node
             if sc.get("k") == "MethodCall" and sc["m"] == "execute":
                 found = True
                 tbl = {}
@@ -64,6 +67,11 @@ def rule_quant(E, R):
                         tbl["Err"] = lit_value(t)
                     elif inner and inner.endswith("LhsValue::Array"):
                         tbl["Ok(Array)"] = t.get("m")
+                        if t.get("k") == "MethodCall" and t["m"] == "reduce_bool_iter" and t.get("args"):
+                            # reduced in place: every element of the array payload, in order
+                            root_, ch_ = chain(t["args"][0])
+                            if local_name(root_) in pat_bindings(p) and chain_verdict(ch_) == "ok":
+                                tbl["Ok(Array)"] = "reduce_lhs_array"
                     else:
                         tbl["Ok(_)"] = "unreachable" if any(norm(c.get("callee", "")).startswith("core::panicking") for c in exprs(a["body"], "Call")) else "?"
                 R.check(tbl == {"Ok(Array)": "reduce_lhs_array", "Err": False, "Ok(_)": "unreachable"}, rule, LOGIC,
@@ -174,7 +182,7 @@ def rule_absent(E, R):
     fn = "ast::index_expr::IndexExpr::compile_vec_with"
     h = E.hir(fn)
     if h:
-        S = sem.Sem(E, h, inline=False)
+        S = sem.Sem(E, h)
         closures = [closure_of(c["args"][0]) for c in exprs(h["body"], "Call")
                     if norm(c.get("callee", "")) == "filter::CompiledVecExpr::new" and c.get("args") and closure_of(c["args"][0])]
         R.floor(rule, "run-time closures in compile_vec_with", len(closures), 2)
@@ -198,7 +206,7 @@ def rule_absent(E, R):
             if len(fi) == 1:
                 root, ch = chain(fi[0].node["args"][0])
                 ms_ = [y["m"] for y in ch]
-                rb = S.lookup(root, fi[0].frame)
+                rb = S.resolve(root, fi[0].frame).bind or S.lookup(root, fi[0].frame)
                 present = rb is not None and (rb.kind == "closure-param" or (rb.kind == "pat" and rb.proj and rb.proj[0][:2] == ("v", "Option::Some")))
                 ok = ms_[:2] == ["iter", "unwrap"] and chain_verdict([y for y in ch if y["m"] != "unwrap"]) == "ok" and present and \
                     any(norm(c_.get("callee", "")).endswith("Compare::compare") for c_ in exprs(fi[0].node, "MethodCall"))
